@@ -28,7 +28,7 @@ from models import centering as C
 from models import stats as S
 
 ID = "C15"
-BUDGET = {"quick": 900, "thorough": 5400}
+BUDGET = {"quick": 900, "thorough": 7200}
 CASE_TIMEOUT = 600
 
 TOL = 1e-9
